@@ -16,9 +16,20 @@ CommandCases ==
             @@ (IF CommandTable[c].kind \in {"unassigned", "unsupported"} THEN [fault |-> "command"] ELSE << >>)
             : p \in Payloads(c)} : c \in 0..255}
 
+\* the prototype credential-management code must decode EXACTLY like 0x0A: every sub-command,
+\* every subset of parameters, faulty payloads too
+CmPayloads ==
+    {Enc(ToTree(T_Indexed("CmReq"), sv, F, TRUE)) :
+        sv \in SubsetsOf(CmReqMin, CmReqOptVals) \cup {[CmReqMin EXCEPT !.subCommand = n] : n \in CmSubcommands}
+               \cup {[ReqFull(10, F) EXCEPT !.subCommand = n] : n \in CmSubcommands}}
+    \cup {Enc(CMap(<< <<CU(1), CU(n)>> >>)) : n \in {0, 8, 9, 23, 24, 255}}
+    \cup {Enc(CMap(<< <<CU(2), CMap(<< >>)>> >>)), Enc(CMap(<< <<CU(1), CU(7)>>, <<CU(2), CMap(<< <<CU(3), CMap(<< >>)>> >>)>> >>))}
+PrototypeCases ==
+    {[op |-> "decode2", tag |-> "prototype-code", c |-> c, sv |-> << >>, wire |-> <<c>> \o p] : c \in {10, 65}, p \in CmPayloads}
+
 TableCases == {[op |-> "optable", tag |-> "optable", c |-> c] : c \in 0..255}
 
-MC_Cases == CommandCases \cup TableCases
+MC_Cases == CommandCases \cup TableCases \cup PrototypeCases
 
 (***************************************************************************)
 (* C11 on the model                                                        *)
